@@ -64,9 +64,9 @@ func H_zero() {
 	}
 	got := zeroValue(t, func(p *types.Package) string { return p.Name() })
 	if want == "{}" {
-		vA("C01,C20", len(got) > 2 && got[len(got)-2:] == "{}", "composite zero value is T{}")
+		vA("C01,C03,C20", len(got) > 2 && got[len(got)-2:] == "{}", "composite zero value is T{}")
 	} else {
-		vA("C01,C20", got == want, "zero value expression matches the kind of the underlying type")
+		vA("C01,C03,C20", got == want, "zero value expression matches the kind of the underlying type (nil for slices, maps, pointers, channels, functions and interfaces)")
 	}
 	vCover("zero")
 }
